@@ -591,6 +591,16 @@ def c11_episodes(seed, thorough=False):
                 b = build(n, combo, bits=bits, hint=r.choice([None, n, 2 * n]))
             q = [{"op": "len"}, {"op": "mem_size"}, {"op": "reload", "mode": "full"}, {"op": "mem_size"}]
             out.append(episode([b] + q, src="space", budget_ms=None))
+    # value widths just below the word size on the bit-field backend, from 100000 keys upward (the 1.135 regime):
+    # a cell width rounded up to a "convenient" one (W - 4, W) costs 2-8 % there
+    for n in ([100000] if not thorough else [100000, 250000, 1000000]):
+        for logic in (("shards", 2), ("fullsigs", 2)):
+            for w in ((59, 61, 62, 63) if thorough else r.sample([59, 61, 62, 63], 2)):
+                b = build(n, (logic[0], logic[1], "func", "bfv", "usize"), v=vals(1, 0, 30, hi=w - 1))
+                out.append(episode([b, {"op": "len"}, {"op": "mem_size"}], kt="usize", kf=RANGE0, src="space", budget_ms=None))
+            w = r.choice([59, 61, 62, 63])
+            b = build(n, ("shards", 2, "filter", "bfv", "u64"), bits=w)
+            out.append(episode([b, {"op": "len"}, {"op": "mem_size"}], kt="usize", kf=RANGE0, src="space", budget_ms=None))
     return out
 
 
